@@ -194,15 +194,15 @@ Proof. exact C20_proofs.payload_intact_sequential_lemma. Qed.
 Theorem handler_decision_table :
   forall decode accepted sb r,
   (enc_ok r = false -> serve decode accepted sb r = HOut 415 None None) /\
-  (enc_ok r = true -> decode (h_body r) = None -> serve decode accepted sb r = HOut 400 None None) /\
-  (forall d, enc_ok r = true -> decode (h_body r) = Some d -> str_eqb (h_method r) post = false ->
+  (enc_ok r = true -> read_body decode r = None -> serve decode accepted sb r = HOut 400 None None) /\
+  (forall d, enc_ok r = true -> read_body decode r = Some d -> str_eqb (h_method r) post = false ->
      serve decode accepted sb r = HOut 405 None None) /\
-  (forall d, enc_ok r = true -> decode (h_body r) = Some d -> str_eqb (h_method r) post = true ->
+  (forall d, enc_ok r = true -> read_body decode r = Some d -> str_eqb (h_method r) post = true ->
      parse_proto_msg (eff_ctype r) = None -> serve decode accepted sb r = HOut 415 None None) /\
-  (forall d t, enc_ok r = true -> decode (h_body r) = Some d -> str_eqb (h_method r) post = true ->
+  (forall d t, enc_ok r = true -> read_body decode r = Some d -> str_eqb (h_method r) post = true ->
      parse_proto_msg (eff_ctype r) = Some t -> existsb (mtype_eqb t) accepted = false ->
      serve decode accepted sb r = HOut 415 None None) /\
-  (forall d t, enc_ok r = true -> decode (h_body r) = Some d -> str_eqb (h_method r) post = true ->
+  (forall d t, enc_ok r = true -> read_body decode r = Some d -> str_eqb (h_method r) post = true ->
      parse_proto_msg (eff_ctype r) = Some t -> existsb (mtype_eqb t) accepted = true ->
      serve decode accepted sb r = HOut (store_status sb) (Some (store_written sb)) (Some (t, d))).
 Proof. exact C20_proofs.handler_decision_table_lemma. Qed.
@@ -229,7 +229,7 @@ Theorem handler_passes_decompressed_payload :
       is_empty cenc || str_eqb cenc snappy_name = true ->
       parse_proto_msg (if is_empty ctype then app_proto else ctype) = Some t ->
       existsb (mtype_eqb t) accepted = true ->
-      serve decode accepted sb (mkHReq post ctype cenc (encode payload)) =
+      serve decode accepted sb (mkHReq post ctype cenc (encode payload) false) =
       HOut (store_status sb) (Some (store_written sb)) (Some (t, payload)).
 Proof. exact C20_proofs.handler_passes_decompressed_payload_lemma. Qed.
 
@@ -237,7 +237,7 @@ Proof. exact C20_proofs.handler_passes_decompressed_payload_lemma. Qed.
    (the handler used to dereference the nil response; fixed in /repo) *)
 Theorem handler_nil_store_response :
   forall decode accepted r d t err,
-    enc_ok r = true -> decode (h_body r) = Some d -> str_eqb (h_method r) post = true ->
+    enc_ok r = true -> read_body decode r = Some d -> str_eqb (h_method r) post = true ->
     parse_proto_msg (eff_ctype r) = Some t -> existsb (mtype_eqb t) accepted = true ->
     serve decode accepted (mkSB true 0 0 0 0 err) r = HOut (if err then 500 else 204) (Some (0, 0, 0)) (Some (t, d)).
 Proof. exact C20_proofs.handler_nil_store_response_lemma. Qed.
